@@ -55,7 +55,14 @@ def run_mutant(path, kind):
     prop = m["property"]
     d = scratch_copy()
     try:
-        err = apply_edits(d, m["edits"])
+        err = None
+        if m.get("base_patch"):
+            # a mutant of a stored behaviour-preserving variant: that variant's patch first, then the edits
+            import subprocess
+            r_ = subprocess.run(["git", "apply", os.path.join(extract.VERIF, m["base_patch"])], cwd=d, capture_output=True, text=True)
+            if r_.returncode:
+                err = "base patch does not apply: " + r_.stderr[:200]
+        err = err or apply_edits(d, m["edits"])
         if err:
             return {"mutant": path, "status": "skipped", "why": err}
         try:
